@@ -38,6 +38,9 @@ CLAIMED["C03"] = ("metamorphic property testing over GC schedules (forced collec
 CLAIMED["C04"] = ("property testing with generated exporting modules: round-trip oracle (host encoding, read-only catalogue before/after freeze through frozen and local observers) and a mutation catalogue attempted through every path to every reachable container from 1..3 importers",
     "Exploration: every generated export must look the same after freezing (host API and in-language read-only catalogue) and every mutation through any path/accessor/closure/default argument must fail and leave the value unchanged.",
     "The read-only and mutation catalogues are hand-written from the language operations listed in the property.", "DESIGN.md §5 C04")
+CLAIMED["C07"] = ("generated-input validity checking over histories: every builtin/method (discovered at run time) x hostile argument tuples, ill-typed operators/statements, failures at generated depths, constant-substituted programs; located-error predicate and recovery probe after every error; worker-process isolation",
+    "Exploration: every evaluation must end in Ok/Err (no panic/abort/Internal), errors must carry valid spans and resolvable call stacks, and after each error the same evaluator/module must behave like a fresh one on a probe program.",
+    "Repeat/shift counts are bounded; resource-limit errors are accepted outcomes.", "DESIGN.md §5 C07")
 NOT_YET = {}
 
 def main():
